@@ -351,7 +351,11 @@ func drawDesign(t *rapid.T, h int, maxRings int, forced ...int) design {
 		}
 		d.alternativeCount *= alts
 		for a := 0; a < alts; a++ {
-			ins := word(t, fmt.Sprintf("slot%d_insert%d", j, a), rapid.IntRange(0, 30).Draw(t, fmt.Sprintf("slot%d_insert%d_len", j, a)), "ACGT")
+			insLen := 0
+			if rapid.IntRange(0, 3).Draw(t, fmt.Sprintf("slot%d_insert%d_empty", j, a)) != 0 { // a quarter of the inserts are empty
+				insLen = rapid.IntRange(0, 30).Draw(t, fmt.Sprintf("slot%d_insert%d_len", j, a))
+			}
+			ins := word(t, fmt.Sprintf("slot%d_insert%d", j, a), insLen, "ACGT")
 			d.frags = append(d.frags, refclone.Frag{Fwd: os[j], Seq: ins, Rev: os[(j+1)%k]})
 		}
 	}
@@ -432,7 +436,11 @@ func genGoldenGateFor(t *rapid.T, forced ...int) Case {
 	for i, f := range d.frags {
 		pad := func(nm string) string { return word(t, fmt.Sprintf("part%d_%s", i, nm), e.Skip, "ACGT") }
 		flank := func(nm string, lo int) string {
-			return word(t, fmt.Sprintf("part%d_%s", i, nm), rapid.IntRange(lo, 25).Draw(t, fmt.Sprintf("part%d_%s_len", i, nm)), "AT")
+			n := lo
+			if lo > 0 || rapid.IntRange(0, 2).Draw(t, fmt.Sprintf("part%d_%s_empty", i, nm)) != 0 { // a third of the optional flanks are empty
+				n = rapid.IntRange(lo, 25).Draw(t, fmt.Sprintf("part%d_%s_len", i, nm))
+			}
+			return word(t, fmt.Sprintf("part%d_%s", i, nm), n, "AT")
 		}
 		core := e.Site + pad("skipL") + f.Fwd + f.Seq + f.Rev + pad("skipR") + ref.RevComp(e.Site)
 		p := PartSpec{}
@@ -440,7 +448,11 @@ func genGoldenGateFor(t *rapid.T, forced ...int) Case {
 			// circular carrier: backbone of 10..60 bases, stored at a drawn rotation
 			p.Circular = true
 			c.Carriers++
-			seq := core + flank("backbone", 10) + flank("backbone2", 0)
+			backboneMin := 10
+			if rapid.IntRange(0, 5).Draw(t, fmt.Sprintf("part%d_short_backbone", i)) == 0 {
+				backboneMin = 0 // down to a carrier that is nothing but the cassette
+			}
+			seq := core + flank("backbone", backboneMin) + flank("backbone2", 0)
 			r := rapid.IntRange(0, len(seq)-1).Draw(t, fmt.Sprintf("part%d_rotation", i))
 			if vk.KnownActive(knownOrigin) {
 				fs, L := refclone.Digest(seq, true, e)
